@@ -264,7 +264,11 @@ func GenSpec(r *Rng, p SigProfile, now time.Time) *SigSpec {
 			s.AltFrame = r.Chance(1, 5)
 		}
 	}
-	if s.Mode == ModePresign {
+	// the query-string carrier combined with the other payload modes (one request in five)
+	if s.Mode != ModePresign && r.Chance(1, 5) {
+		s.Presign = true
+	}
+	if s.IsPresigned() {
 		s.Expires = Pick(r, []int{300, 900, 3600, 86400, 604800})
 	}
 	s.SignTime = now.Add(time.Duration(r.Intn(81)-40) * time.Second)
